@@ -42,6 +42,40 @@ ben('entries_process_rename', [(EN, 're', r'\bdepth\b', 'level')])
 ben('stdfs_is_dir_early_return', [(SM, 's', "    pub fn is_dir<T: AsRef<Path>>(path: T) -> bool {\n        match Stdfs::abs(path) {\n            Ok(abs) => match fs::symlink_metadata(abs) {\n                Ok(x) => !x.file_type().is_symlink() && x.is_dir(),\n                _ => false,\n            },\n            Err(_) => false,\n        }\n    }",
                                    "    pub fn is_dir<T: AsRef<Path>>(path: T) -> bool {\n        let abs = match Stdfs::abs(path) {\n            Ok(abs) => abs,\n            Err(_) => return false,\n        };\n        let meta = match fs::symlink_metadata(abs) {\n            Ok(x) => x,\n            _ => return false,\n        };\n        if meta.file_type().is_symlink() {\n            return false;\n        }\n        meta.is_dir()\n    }")])
 
+# ---- refactors inside the functions whose branching skeleton is frozen (SITE-GUARD / ERR-GUARD / IO-TABLE)
+ben('process_min_depth_flipped', [(EN, 's', "        if depth < self.opts.min_depth {\n            return None;\n        }", "        if self.opts.min_depth > depth {\n            return None;\n        }")])
+ben('chmod_hoist_mode', [(MV, 's', "            if (!x.is_symlink() || m.follow) && x.is_dir() && !sys::revoking_mode(x.mode(), m1) && x.mode() != m1 {\n                let mut guard = vfs.write_guard();",
+                          "            let cur = x.mode();\n            if (!x.is_symlink() || m.follow) && x.is_dir() && !sys::revoking_mode(cur, m1) && cur != m1 {\n                let mut guard = vfs.write_guard();")])
+ben('stdfs_move_p_explicit_match', [(SM, 's', "        fs::rename(src_path, dst_path)?;\n        Ok(())", "        if let Err(e) = fs::rename(src_path, dst_path) {\n            return Err(e.into());\n        }\n        Ok(())")])
+ben('memfs_remove_check_extracted', [(MV, 's', "        // First check if the target contains files\n        if let Some(entry) = guard.get_entry(&path) {\n            if let Some(ref files) = entry.files {\n                if !files.is_empty() {\n                    return Err(PathError::dir_contains_files(path).into());\n                }\n            }\n        }\n\n        // Next remove the file from its parent\n        let dir = path.dir()?;\n        if let Some(entry) = guard.get_entry_mut(&dir) {\n            entry.remove(path.base()?)?;",
+                                      "        // First check if the target contains files\n        Memfs::_ensure_no_children(&guard, &path)?;\n\n        // Next remove the file from its parent\n        let dir = path.dir()?;\n        if let Some(entry) = guard.get_entry_mut(&dir) {\n            entry.remove(path.base()?)?;"),
+                                     (MV, 's', "    // Execute chmod with the given options\n    fn _chmod(&self, opts: ChmodOpts) -> RvResult<()> {",
+                                      "    // Fail if the given path is a directory that still has children\n    fn _ensure_no_children(guard: &MemfsGuard, path: &Path) -> RvResult<()> {\n        if let Some(entry) = guard.get_entry(path) {\n            if let Some(ref files) = entry.files {\n                if !files.is_empty() {\n                    return Err(PathError::dir_contains_files(path).into());\n                }\n            }\n        }\n        Ok(())\n    }\n\n    // Execute chmod with the given options\n    fn _chmod(&self, opts: ChmodOpts) -> RvResult<()> {")])
+ben('stdfs_remove_all_helper', [(SM, 's', "        let path = Stdfs::abs(path)?;\n        if Stdfs::exists(&path) {\n            fs::remove_dir_all(path)?;\n        }\n        Ok(())\n    }",
+                                 "        let path = Stdfs::abs(path)?;\n        if Stdfs::exists(&path) {\n            Stdfs::_rm_tree(&path)?;\n        }\n        Ok(())\n    }\n\n    // Remove the given absolute path and everything below it\n    fn _rm_tree(path: &Path) -> RvResult<()> {\n        fs::remove_dir_all(path)?;\n        Ok(())\n    }")])
+ben('process_defer_nested_if', [(EN, 's', "        if entry.is_dir() && self.opts.contents_first {\n            self.deferred.push(entry);\n            return None;\n        }",
+                                 "        if self.opts.contents_first {\n            if entry.is_dir() {\n                self.deferred.push(entry);\n                return None;\n            }\n        }")])
+ben('memfs_readlink_match', [(MV, 's', "        if let Some(entry) = guard.get_entry(&path) {\n            if !entry.is_symlink() {\n                return Err(PathError::is_not_symlink(path).into());\n            }\n            Ok(entry.rel_buf())\n        } else {\n            Err(PathError::does_not_exist(path).into())\n        }",
+                               "        let entry = match guard.get_entry(&path) {\n            Some(entry) => entry,\n            None => return Err(PathError::does_not_exist(path).into()),\n        };\n        if !entry.is_symlink() {\n            return Err(PathError::is_not_symlink(path).into());\n        }\n        Ok(entry.rel_buf())")])
+ben('next_root_if_let', [(EN, 's', "            if result.is_some() {\n                return result;\n            }", "            if let Some(first) = result {\n                return Some(first);\n            }")])
+
+ben('string_trim_suffix_delegates', [('src/core/string.rs', 's', "impl StringExt for String {", "impl StringExt for String {\n    // (trim_suffix below forwards to the str implementation)"),
+                                      ('src/core/string.rs', 's', "    fn trim_suffix<T: Into<String>>(&self, suffix: T) -> String {\n        let target = suffix.into();\n        match self.ends_with(&target) {\n            true => self[..self.len() - target.len()].to_owned(),\n            _ => self.to_owned(),\n        }\n    }\n}\n\n/// Provides to_string",
+                                       "    fn trim_suffix<T: Into<String>>(&self, suffix: T) -> String {\n        StringExt::trim_suffix(self.as_str(), suffix)\n    }\n}\n\n/// Provides to_string")])
+ben('seek_match_to_if_let', [(MF, 's', "        match base.checked_add_signed(offset) {\n            Some(pos) => {\n                self.pos = pos;\n                Ok(self.pos)\n            },\n            None => Err(io::Error::new(\n                io::ErrorKind::InvalidInput,\n                \"invalid seek to a negative or overflowing position\",\n            )),\n        }",
+                              "        if let Some(pos) = base.checked_add_signed(offset) {\n            self.pos = pos;\n            return Ok(pos);\n        }\n        Err(io::Error::new(io::ErrorKind::InvalidInput, \"invalid seek to a negative or overflowing position\"))")])
+ben('path_name_let_binding', [(PA, 's', "    base(trim_ext(path)?)\n", "    let trimmed = trim_ext(path)?;\n    base(trimmed)\n")])
+
+# ---- edits that touch operands / stores / struct literals of frozen functions without changing what flows where
+ben('stdfs_chown_hoist_ids', [(SM, 's', "        for entry in Stdfs::entries(&opts.path)?.max_depth(max_depth).follow(opts.follow) {\n            let src = entry?;\n            let uid = opts.uid.map(nix::unistd::Uid::from_raw);\n            let gid = opts.gid.map(nix::unistd::Gid::from_raw);\n            nix::unistd::chown(src.path(), uid, gid)?;\n        }",
+                               "        let uid = opts.uid.map(nix::unistd::Uid::from_raw);\n        let gid = opts.gid.map(nix::unistd::Gid::from_raw);\n        for entry in Stdfs::entries(&opts.path)?.max_depth(max_depth).follow(opts.follow) {\n            let src = entry?;\n            nix::unistd::chown(src.path(), uid, gid)?;\n        }")])
+ben('memfs_set_cwd_let_and_return', [(MV, 's', "        guard.set_cwd(path.clone());\n        Ok(path)", "        let new_cwd = path.clone();\n        guard.set_cwd(new_cwd);\n        return Ok(path);")])
+ben('stdfs_chown_b_local_opts', [(SM, 's', "        Ok(Chown {\n            opts: ChownOpts {\n                path: Stdfs::abs(path)?,\n                uid: None,\n                gid: None,\n                follow: false,\n                recursive: true,\n            },\n            exec: Box::new(Stdfs::_chown),\n        })",
+                                  "        let path = Stdfs::abs(path)?;\n        let opts = ChownOpts { path, uid: None, gid: None, follow: false, recursive: true };\n        Ok(Chown { opts, exec: Box::new(Stdfs::_chown) })")])
+ben('memfs_new_unused_helper', [(MV, 's', "    // Execute chmod with the given options\n    fn _chmod(&self, opts: ChmodOpts) -> RvResult<()> {",
+                                 "    // Number of entries currently stored (diagnostics only)\n    #[allow(dead_code)]\n    fn _entry_count(&self) -> usize {\n        let guard = self.read_guard();\n        guard.entries_len()\n    }\n\n    // Execute chmod with the given options\n    fn _chmod(&self, opts: ChmodOpts) -> RvResult<()> {"),
+                                (MV, 's', "    pub(crate) fn set_cwd(&mut self, path: PathBuf) {", "    #[allow(dead_code)]\n    pub(crate) fn entries_len(&self) -> usize {\n        match self {\n            MemfsGuard::Read(x) => x.entries.len(),\n            MemfsGuard::Write(x) => x.entries.len(),\n        }\n    }\n\n    pub(crate) fn set_cwd(&mut self, path: PathBuf) {")])
+
 
 def main():
     if subprocess.check_output(['git', '-C', REPO, 'status', '--porcelain', '--', 'src'], text=True).strip():
